@@ -233,7 +233,7 @@ class Loop:
 
 
 class Legit:
-    """The legitimate peer B: acquire -> IKE_SA_INIT -> IKE_AUTH -> CHILD_SA rekey -> delete of the old CHILD_SA."""
+    """The legitimate peer B: acquire -> IKE_SA_INIT -> IKE_AUTH -> CHILD_SA rekey -> delete of the old CHILD_SA -> IKE_SA rekey -> delete of the old IKE_SA -> delete of the IKE_SA."""
 
     def __init__(self, loop):
         self.loop = loop
@@ -276,6 +276,18 @@ class Legit:
                     return None
                 self.queue.append(bytes(req))
             elif self.stage == 2:
+                # B rekeys the IKE_SA (the daemon answers as the responder of the rekey: its old IKE_SA waits in REKEYED for B's DELETE - while its timers run)
+                sas = [s for s in w.sas('B') if s.state == IkeSa.State.ESTABLISHED and s.child_sas]
+                if not sas:
+                    return None
+                keep = sas[0].rekey_ike_sa_at
+                sas[0].rekey_ike_sa_at = w.now - 1
+                req = w.timer('B', sas[0], 'check_rekey_ike_sa_timer')
+                sas[0].rekey_ike_sa_at = keep
+                if req is None:
+                    return None
+                self.queue.append(bytes(req))
+            elif self.stage == 3:
                 # the session is complete (IKE_SA, CHILD_SA, one rekey): remember that, then B closes the IKE_SA (the daemon tears it down with its CHILD_SA)
                 sas = [s for s in w.sas('B') if s.state == IkeSa.State.ESTABLISHED]
                 if not sas or not any(s.state == IkeSa.State.ESTABLISHED and s.child_sas for s in w.sas('A')):
